@@ -136,6 +136,13 @@ func vTimeStr(name string) string {
 		return "not-a-timestamp:" + s
 	}
 	ns := vxI64(n + ".ns")
+	if zero, _ := vx.inputs[n+".zero"].(bool); zero {
+		// Go's zero time, spelled with or without an offset
+		if z, _ := vx.inputs[n+".z"].(bool); z {
+			return "0001-01-01T00:00:00Z"
+		}
+		return "0001-01-01T02:00:00+02:00"
+	}
 	if far, _ := vx.inputs[n+".far"].(bool); far {
 		// an instant outside the int64-nanosecond range: far future or far past, as the saturated value says
 		if ns > 0 {
